@@ -93,14 +93,16 @@ CLAIMS = {
          "number type uses checked_shl as an overflow test; SatCountCache::map is touched by its owner and sat_count_edge::inner only. "
          "The exactness of the number types beyond that is not decided.",
          "HIR interpretation with symbolic numbers + MIR path enumeration / liveness", "3.5, 3.11, 4 C12"),
- "C07": ("E-LOCK + E-FREELIST + E-CACHE.dm + E-EVENT (+E-LIN/E-WRAP on the parallel code): lock-order acyclicity over all lock classes, "
+ "C07": ("E-LOCK + E-FREELIST + E-CACHE.dm + E-EVENT + E-PERM.blocked + E-DBG (+E-LIN/E-WRAP on the parallel code): lock-order acyclicity over all lock classes, "
          "minimal memory orderings of the rc / lock protocols, rc re-read under the level lock, Send/Sync bounds of every unsafe "
          "impl, move-only hand-over of thread-local free lists, non-blocking cache on the operation path and locked cache during "
          "gc, the gc bracket (try_lock, epoch bump, pre_gc, level sweeps, terminal sweep, post_gc, unlock) on every path of both "
-         "managers, MT wrappers reach the same algorithm instances. These are necessary conditions (no deadlock by lock order, the "
+         "managers, cache-entry guards created only after their lock was acquired, the position-blocking protocol of the concurrent "
+         "bubble sort (symbolic execution of all 24 paths of the worker's swap loop), no side effect inside a debug assertion, "
+         "MT wrappers reach the same algorithm instances. These are necessary conditions (no deadlock by lock order, the "
          "stated happens-before edges exist); equivalence to a sequential execution over schedules is NOT decided.",
          "lock-order graph + atomic-ordering table + MIR dataflow rules", "3.6, 4 C07"),
- "C08": ("E-UNITS.pre + E-UNITS + E-LIN + E-CANON.swap + E-WHO + E-PERM + E-TABLE.skip + E-EVENT on oxidd-reorder: level_swap's stale-number discipline (compare stored numbers with "
+ "C08": ("E-UNITS.pre + E-UNITS + E-LIN + E-CANON.swap + E-WHO + E-PERM(.blocked) + E-TABLE.skip + E-EVENT on oxidd-reorder: level_swap's stale-number discipline (compare stored numbers with "
          "_pre parameters only, create/relabel nodes with the stale number of their level), no var/level mix-ups, no owned edge "
          "dropped by the compiler, children rewritten before re-insertion (hash under the final key), unchecked insertions "
          "only, gated entry points; the level-permutation loop of set_var_order_common advances only on the element-in-place edge "
